@@ -2,6 +2,7 @@ package checks
 
 import (
 	"bytes"
+	"encoding/base64"
 	"fmt"
 	"os"
 	"os/exec"
@@ -600,6 +601,73 @@ func runC16(r *mc.Run) {
 		}
 	}
 	world.SetLogLevel(0)
+	// raw inputs of other shapes: the quote as text (base64 in three alphabets, hex, with a line feed), with bytes in
+	// front of or behind it, doubled, with spare capacity: whatever a raw entry point makes of its input, it reads it
+	{
+		b64 := base64.StdEncoding.EncodeToString(raw0)
+		shapes := []struct {
+			name string
+			b    []byte
+		}{{"base64-std", []byte(b64)}, {"base64-std+LF", []byte(b64 + "\n")}, {"base64-url", []byte(base64.URLEncoding.EncodeToString(raw0))}, {"base64-raw-std", []byte(base64.RawStdEncoding.EncodeToString(raw0))},
+			{"base64-in-lines-of-76", []byte(func() string {
+				var sb strings.Builder
+				for i := 0; i < len(b64); i += 76 {
+					e := i + 76
+					if e > len(b64) {
+						e = len(b64)
+					}
+					sb.WriteString(b64[i:e] + "\r\n")
+				}
+				return sb.String()
+			}())},
+			{"hex-text", []byte(hexs(raw0))}, {"hex-text-upper+LF", []byte(strings.ToUpper(hexs(raw0)) + "\n")}, {"0x+hex-text", []byte("0x" + hexs(raw0))},
+			{"pem-like", []byte("-----BEGIN TDX QUOTE-----\n" + b64 + "\n-----END TDX QUOTE-----\n")}, {"json-string", []byte(`{"quote":"` + b64 + `"}`)},
+			{"quote+4096-zero-bytes", append(append([]byte{}, raw0...), make([]byte, 4096)...)}, {"quote-twice", append(append([]byte{}, raw0...), raw0...)},
+			{"binary-with-room-behind", append(make([]byte, 0, len(raw0)+8192), raw0...)}}
+		for _, sh := range shapes {
+			for _, opName := range []string{"verify.RawTdxQuote", "validate.RawTdxQuote", "abi.QuoteToProto"} {
+				id := "write/raw-input=" + sh.name + "/" + opName
+				if !r.Want(id) {
+					continue
+				}
+				raw := append(make([]byte, 0, cap(sh.b)), sh.b...)
+				keep := append([]byte(nil), raw[:cap(raw)]...)
+				vo := c16ValidateOpts(raw0)
+				ar, aerr := memwatch.New(1 << 21)
+				if aerr != nil {
+					r.HarnessError("C16: cannot map the arena: %v", aerr)
+					return
+				}
+				if _, rerr := ar.Rehome(&pb.QuoteV4{}, &raw, vo); rerr != nil {
+					r.HarnessError("C16: %v", rerr)
+					ar.Free()
+					return
+				}
+				out := "unchanged"
+				fault, _ := ar.Guard(func() {
+					switch opName {
+					case "verify.RawTdxQuote":
+						verify.RawTdxQuote(raw, w.Options(world.L0))
+					case "validate.RawTdxQuote":
+						validate.RawTdxQuote(raw, vo)
+					default:
+						abi.QuoteToProto(raw)
+					}
+				})
+				switch {
+				case fault != nil:
+					site := faultSite(fault.Stack)
+					r.Violate("write:raw-input:"+opName+":"+site, id, opName+" writes to its raw input ("+sh.name+"): store faulted in "+site, map[string]any{"stack": trimStack(fault.Stack)})
+					out = "WRITE@" + site
+				case !bytes.Equal(raw[:cap(raw)], keep):
+					r.Violate("write:raw-input-changed:"+opName, id, opName+" changed its raw input ("+sh.name+")", nil)
+					out = "changed"
+				}
+				ar.Free()
+				r.Eval(id, true, "write-raw:"+out)
+			}
+		}
+	}
 	// aliasing: a parsed quote shares no memory with its input
 	{
 		id := "alias/parsed-vs-input"
